@@ -35,6 +35,10 @@ EXPLANATION = (
     "linspace positions when n_outliers exceeds the row count, disjointness of user-supplied anomalies / sortedness of "
     "changepoints (caller obligations the property does not make the generators validate)."
 )
+# obligations added during the build phase (seeding rounds, twins, mutation analysis)
+ADDED_IN_BUILD = " Also: arguments-untouched - no in-place list operation and no numpy out= write on the caller's lists / per-segment parameters; the segment loop is decided as a zip loop or as an index loop (generic or unrolled) with the same obligations (all segments visited, lengths equal the number of segments, bounds L[i], L[i+1])."
+EXPLANATION = EXPLANATION + ADDED_IN_BUILD
+
 ASSUMPTIONS = [
     "Python's ast module and evaluation-order/argument-binding semantics as implemented in skverif/symex.py",
     "library model table skverif/models.py: multivariate_normal.rvs(mean, cov, size, random_state) is a pure function of its "
